@@ -14,7 +14,7 @@ ID = 'C03'
 LEVEL = 'exploration'
 RUNS = {'quick': 20000, 'thorough': 400000}
 CHUNK = 50
-PROBES = ['partial_tag_prefix_before_tag', 'earlier_dump_other_parser_object', 'multi_chunk', 'empty_chunk', 'cut_inside_window', 'cut_inside_lookup', 'decoy_tag_in_stackshot', 'gap_before_event_tag',
+PROBES = ['special_record', 'partial_tag_prefix_before_tag', 'earlier_dump_other_parser_object', 'multi_chunk', 'empty_chunk', 'cut_inside_window', 'cut_inside_lookup', 'decoy_tag_in_stackshot', 'gap_before_event_tag',
           'header_plist_unaligned', 'two_kext_blocks', 'two_dyld_blocks', 'two_code_blocks', 'two_log_blocks', 'unpadded_last_block',
           'log_extends_tables', 'log_without_pid', 'strings_block_before_logs', 'xml_plists', 'no_blocks', 'unknown_block',
           'log_with_tai', 'cli_run']
@@ -47,6 +47,9 @@ def generate(rng, index, tier):
         w['chunks'].append(rng.pick(w['chunks']))                # an empty chunk
         w['chunks'].sort()
     scn['api'] = rng.pick(['kd', 'kd', 'pk'])
+    if rng.chance(0.25):
+        # records a kernel buffer can hold besides decoded ones: all-zero slots, all-ones, zero timestamp and debugid
+        scn['special'] = [[rng.randrange(0, nrec + 1), rng.pick(['zero', 'zero', 'ones', 'zts'])] for _ in range(rng.randint(1, 3))]
     scn['cli'] = index % 16 == 0
     if w['blocks'] and rng.chance(0.25):
         # an earlier dump, parsed first by ANOTHER parser object in the same process, that shares some payloads with this one
@@ -95,6 +98,10 @@ def execute(scn):
         stats[k] = stats.get(k, 0) + v
     table, stream = worlds.build_stream(scn)
     rb = [kernel.to_bytes(r) for r in stream]
+    for pos, kind in sorted(scn.get('special', []), reverse=True):
+        blob = {'zero': bytes(64), 'ones': b'\xff' * 64}.get(kind) or (bytes(8) + bytes(range(1, 41)) + bytes(4) + bytes(range(50, 62)))
+        rb.insert(min(pos, len(rb)), blob)
+        bump('probe:special_record')
     w = scn['writer']
     data, layout = worlds.build_file(w, rb)
     blocks = w.get('blocks', [])
@@ -106,7 +113,7 @@ def execute(scn):
     bounds = [0] + cuts + [len(rb)]
     if any(bounds[i] == bounds[i + 1] for i in range(len(bounds) - 1)) and nchunks > 1:
         bump('probe:empty_chunk')
-    for c in cuts:
+    for c in ([] if scn.get('special') else cuts):
         if 0 < c < len(stream):
             a, b = stream[c - 1], stream[c]
             if a['t'] == b['t'] and a['o'].rsplit('/', 1)[0] == b['o'].rsplit('/', 1)[0] and '/c' in b['o']:
